@@ -202,9 +202,17 @@ class Panoptica_Evaluator(SupportsConfig):
         if single_instance_mode and not isinstance(
             processing_pair, MatchedInstancePair
         ):
+            prediction_arr_single = processing_pair_grouped.prediction_arr
+            reference_arr_single = processing_pair_grouped.reference_arr
+            if not np.issubdtype(prediction_arr_single.dtype, np.unsignedinteger):
+                # semantic maps may be signed, instance maps must be unsigned; the
+                # group-restricted arrays only hold the group's (positive) label
+                unsigned = np.dtype(f"uint{prediction_arr_single.dtype.itemsize * 8}")
+                prediction_arr_single = prediction_arr_single.astype(unsigned)
+                reference_arr_single = reference_arr_single.astype(unsigned)
             processing_pair_grouped = MatchedInstancePair(
-                prediction_arr=processing_pair_grouped.prediction_arr,
-                reference_arr=processing_pair_grouped.reference_arr,
+                prediction_arr=prediction_arr_single,
+                reference_arr=reference_arr_single,
             )
             decision_threshold = 0.0
 
